@@ -128,6 +128,10 @@ class _ForthMachine(object):
     def string_at(self, at):
         return core.result_str(self._c("forth_string_at", (at,)))
 
+    def inputs_modified(self):
+        """how many of the input buffers given to the latest begin/run no longer hold the bytes that were passed in"""
+        return self._c("forth_inputs_modified").i
+
     def input_position(self, name):
         return self._c("forth_input_position_at", (), (name,)).i
 
@@ -184,6 +188,7 @@ class _ForthMachine(object):
         """{'stack', 'variables', 'outputs': {name: [dtype, hex] | ['negative-length', n]}, 'positions', 'ready', 'done', ...}"""
         s = self._j("forth_state")
         s["outputs"] = {k: ([v["dtype"], v["hex"]] if "hex" in v else ["negative-length", v["len"]]) for k, v in s["outputs"].items()}
+        s["inputs_modified"] = self.inputs_modified()
         return s
 
     # error codes without the binding's raise/ignore logic
